@@ -829,9 +829,38 @@ func genC12Rt(x *Ctx) {
 					h := randVp9Hdr(r)
 					calls = append(calls, vp9Call{mtu, h.frame(r, n), h})
 				}
+				// a frame offered twice: first with an MTU that cannot hold its descriptor (the call is
+				// refused, possibly after the payloader has looked at the frame), then again with a
+				// sufficient one — a sender that retries after reconfiguring its transport.  Whatever the
+				// refused call left behind must not show in the packets of the accepted one.
+				if r.Chance(1, 5) {
+					last := calls[len(calls)-1]
+					if last.Frame != nil {
+						c.Tag("frame-refused-then-offered-again")
+						calls[len(calls)-1].MTU = r.Pick(r.Range(4, 11), r.Range(0, 3), r.Range(4, 11))
+						calls = append(calls, vp9Call{r.Pick(r.Range(12, 64), 1200, mtu), cloneBytes(last.Frame), last.Hdr})
+					}
+				}
 			}
 			return flex, init, calls
 		})
+	}
+	// key frame of one size, a key frame of ANOTHER size refused for every too-small MTU, then accepted
+	for _, flex := range []bool{false, true} {
+		for small := 0; small <= 11; small++ {
+			for v := 0; v < 4; v++ {
+				flex, small, v := flex, small, v
+				vp9RtCase(x, func(c *Case) (bool, int, []vp9Call) {
+					r := c.R
+					c.Tag("key-frame-size-change-refused-then-accepted")
+					a := &vp9Hdr{Kind: "key", Profile: v, Space: 1 + v, ShowFrame: true, SubX: true, W: 640, H: 480}
+					b := &vp9Hdr{Kind: "key", Profile: v, Space: 1 + v, ShowFrame: true, SubX: true, W: 1280 + small, H: 720 + v}
+					fb := b.frame(r, r.Range(20, 60))
+					return flex, r.Pick(0, 32766, r.Intn(65536)), []vp9Call{
+						{30, a.frame(r, r.Range(20, 60)), a}, {small, fb, b}, {30, cloneBytes(fb), b}}
+				})
+			}
+		}
 	}
 	// frames of 2^16 … 2^16+2000 bytes and of 2^17 bytes and more (byte counts that no longer fit 16 bits),
 	// key and non-key, both modes, at an ordinary MTU and at the largest one; a small frame follows
